@@ -451,7 +451,7 @@ def new_filter(allow, block):
 
 
 def cmd_filter(path, out_path):
-    """spec: {"hosts":[{"h":host string,"hlow","hcanon","kind","ip":[a,b,c,d]|[],"v6","rsv"}...], "headers":[...],
+    """spec: {"hosts":[{"h":host string,"hlow","hcanon","kind","ip":[a,b,c,d]|[],"ip6":[g1..g8]|[],"rsv"}...], "headers":[...],
     "configs":[{"allow":[{"raw","low","canon"}..],"block":[..]}],
     "rounds":n}.  The resolver table is rendered from the host objects (names: dotted quad of `ip`, or the failure mode)."""
     spec = json.load(open(path))
@@ -470,7 +470,7 @@ def cmd_filter(path, out_path):
                                                                    {"x-lunar-allow": header, "accept": "*/*"})
                         rec = {"ev": "case", "allow": allow, "block": block, "host": h["h"], "hlow": h["hlow"], "hcanon": h["hcanon"],
                                "kind": h["kind"], "ip": h["ip"],
-                               "v6": h["v6"], "rsv": h["rsv"], "header": header, "round": rnd}
+                               "ip6": h["ip6"], "rsv": h["rsv"], "header": header, "round": rnd}
                         try:
                             r = tf.is_allowed(h["h"], headers)
                             rec["res"] = "yes" if r is True else ("no" if r is False else "other")
